@@ -477,3 +477,8 @@ mod tests {
         assert_eq!(r, "<b>Usage: </b><tt><b>my_program</b></tt>")
     }
 }
+
+#[cfg(kani)]
+mod verif_kani {
+    include!(concat!(env!("PACAK_BPAF_VERIF_DIR"), "/kani/html.rs"));
+}
